@@ -53,6 +53,7 @@ class PlanJoin:
                 and len(query_info['integrations']) == 1
                 and 'files' not in query_info['integrations']
                 and 'views' not in query_info['integrations']
+                and not self.planner.cte_name_captures_table(query)
         ):
 
             int_name = list(query_info['integrations'])[0]
